@@ -155,6 +155,18 @@ class Ctx:
             return
         self.claims.append((label, cond))
 
+    def lemma(self, label, cond):
+        """prove `cond` on the current path (it is recorded as a claim like any other) and, if it is valid,
+        make it available to the solver for the claims that follow. Replay: an ordinary claim."""
+        self.claims.append((label, cond))
+        if self.sym:
+            r, _ = E.ENGINE.query(z3.Not(E.to_term(cond)))
+            if r == "unsat":
+                E.ENGINE.add(E.to_term(cond))
+                return True
+            return False
+        return True
+
     def claim_all(self, label, conds):
         for i, c in enumerate(conds):
             self.claim("%s [%d]" % (label, i), c)
@@ -417,10 +429,12 @@ def run_job(prop, prop_mod, harness, cfg, tier, seed, known_pass=None):
     sqrt_axiom = opts.pop("sqrt_axiom", False)
     sqrt_pos = opts.pop("sqrt_pos_axiom", False)
     keyed = opts.pop("keyed_sqrt", False)
+    div_elim = opts.pop("div_elim", False)
     eng = E.set_engine(E.Engine(seed=seed, **opts))
     eng.sqrt_axiom = sqrt_axiom
     eng.sqrt_pos_axiom = sqrt_pos
     eng.keyed_sqrt = keyed
+    eng.div_elim = div_elim
     open_ids = [k["id"] for k in open_known(prop, harness.name)]
     rec = {
         "property": prop,
